@@ -42,7 +42,13 @@ func init() {
 		QuickSecs:    90,
 		ThoroughSecs: 1800,
 		MaxChoices:   400000,
-		Run:          func(r *vfw.Run) { runCeremony(r, false) },
+		Run: func(r *vfw.Run) {
+			if r.Choose("c17.kind", 8) == 0 {
+				c17DecisionTable(r)
+				return
+			}
+			runCeremony(r, false)
+		},
 	})
 	vfw.Register(&vfw.Check{
 		ID:    "C16",
@@ -824,4 +830,42 @@ func c16InScenario(r *vfw.Run, s *scen.Scn, cer *scen.Cer, live []*simnode.Node,
 			}
 		}
 	}
+}
+
+// c17DecisionTable samples the status decision function over prior statuses, flags and score tuples on and around the
+// published thresholds and checks the three rules of the property that do not depend on the table's details.
+func c17DecisionTable(r *vfw.Run) {
+	t := r.Tape
+	scores := []float32{0, 0.3, 0.59, 0.6, 0.61, 0.74, 0.75, 0.76, 0.91, 0.92, 0.93, 1}
+	flips := []uint32{0, 1, 5, 9, 10, 11, 12, 13, 14, 23, 24, 25, 100}
+	states := []state.IdentityState{state.Undefined, state.Invite, state.Candidate, state.Verified, state.Suspended, state.Killed, state.Zombie, state.Newbie, state.Human}
+	n := 2000
+	for i := 0; i < n; i++ {
+		prev := states[t.Choose("c17.dt.prev", len(states))]
+		id := state.Identity{State: prev, Birthday: uint16(t.Choose("c17.dt.birthday", 5))}
+		short, long, total := scores[t.Choose("c17.dt.short", len(scores))], scores[t.Choose("c17.dt.long", len(scores))], scores[t.Choose("c17.dt.total", len(scores))]
+		tq, sq := flips[t.Choose("c17.dt.totalflips", len(flips))], flips[t.Choose("c17.dt.shortflips", len(flips))]
+		missed, noQualShort, nonQualLong := t.Choose("c17.dt.missed", 2) == 0, t.Choose("c17.dt.noqualshort", 4) == 0, t.Choose("c17.dt.nonquallong", 4) == 0
+		fix, u10, u12 := t.Choose("c17.dt.fix", 2) == 0, t.Choose("c17.dt.u10", 2) == 0, t.Choose("c17.dt.u12", 2) == 0
+		var got state.IdentityState
+		pv, st := r.W.As(r.W.CurCtx(), func() {
+			got = ceremony.VerifDetermineNewIdentityState(id, short, long, total, tq, missed, noQualShort, nonQualLong, fix, u10, sq, u12)
+		})
+		what := fmt.Sprintf("prior status %d, scores short %v long %v total %v, qualified flips total %d short %d, missed=%v noQualShort=%v nonQualLong=%v flags fix=%v u10=%v u12=%v", prev, short, long, total, tq, sq, missed, noQualShort, nonQualLong, fix, u10, u12)
+		if pv != nil {
+			r.Violate("C17:status-decision-panicked", "%s: %v\n%s", what, pv, st)
+		}
+		validated := got == state.Newbie || got == state.Verified || got == state.Human
+		if missed && validated {
+			r.Violate("C17:identity-that-missed-or-lacked-flips-is-validated", "decision table: %s -> %d", what, got)
+		}
+		if prev == state.Invite && got != state.Killed && got != state.Undefined {
+			r.Violate("C17:unactivated-invitation-not-terminated", "decision table: %s -> %d", what, got)
+		}
+		if (prev == state.Killed || prev == state.Undefined) && got != state.Killed && got != state.Undefined {
+			r.Violate("C17:terminated-identity-came-back-through-validation", "decision table: %s -> %d", what, got)
+		}
+		r.Probe(fmt.Sprintf("decision_%d_to_%d", prev, got))
+	}
+	r.Case("a/"+r.W.Fingerprint(), true)
 }
